@@ -241,9 +241,27 @@ def r2_primitives(a, tier):
     for node in nodes:
         short = node._cls.split('.')[-1]
         try:
-            mp = _model_primitive(a, node)
             gp, lines = _generated_primitive(a, node, wrappers)
         except Unsupported as e:
+            raise AnalysisError(f'cannot interpret {short}: {e}') from e
+        try:
+            mp = _model_primitive(a, node)
+        except Unsupported as e:
+            # the model's _parse does not call ONE primitive of the context (e.g. it pushes and discards the lookahead frame
+            # itself): it corresponds to the generated primitive when it treats the state stack the same way on every exit
+            from .c05 import frame_signature
+            mfn = a.ct.lookup(node._cls, '_parse')
+            pfn = a.ct.lookup(CTX, gp[0]) if gp else None
+            try:
+                msig = frame_signature(a, mfn) if mfn is not None else None
+                psig = frame_signature(a, pfn) if pfn is not None else None
+            except Exception:  # noqa: BLE001
+                msig = psig = None
+            proj = lambda sg: {(k, fam, ops, d) for (k, fam, ops, d) in sg if fam in ('-', 'failedparse')}  # noqa: E731
+            if msig and psig and any(ops for _k, _f, ops, _d in msig) and proj(msig) <= proj(psig):
+                rep.add({'node': short, 'model': f'inline frame handling {sorted(proj(msig))}', 'generated': gp[0], 'same': True,
+                         'via': 'frame signature of the model method is contained in that of the primitive'})
+                continue
             raise AnalysisError(f'cannot interpret {short}: {e}') from e
         if mp is None or gp is None:
             rep.add({'node': short, 'model': mp, 'generated': gp, 'emitted': lines[:2]})
